@@ -16,6 +16,10 @@
 (*  upload-starved      a client upload stalled at window 0 although all it  *)
 (*                      sent was consumed                                   *)
 (*  spinning            the server does not become quiescent                *)
+(*  sender-died         the connection's tasks ended with an exception      *)
+(*                      although the client sent nothing illegal            *)
+(*  end-missing/connection-closed-under-streams   the server closed,        *)
+(*                      unprovoked, under a response that was under way     *)
 (***************************************************************************)
 EXTENDS Obs
 
@@ -38,6 +42,22 @@ Clauses(o, ev, o2) ==
       [] ev.e = "wire" /\ ev.kind = "end" ->
             IF Wire(o, ev.app).ends = 0 THEN <<>> ELSE <<F("end-once", "second-end")>>
       [] ev.e = "spin" -> <<F("spinning", "")>>
+      \* the connection's tasks - the sending task among them - ended with an exception although the client sent
+      \* nothing illegal: no stream is delivered any more
+      [] ev.e = "handler_done" ->
+            IF ev.exc \notin {"none", "cancelled"} /\ ~o.illegal /\ ~o.cerr /\ ~o.winddown
+            THEN <<F("sender-died", IF o.unusual # {} THEN CHOOSE u \in o.unusual : TRUE ELSE ev.exc)>> ELSE <<>>
+      \* the server closes the connection, unprovoked, under a stream whose response is under way (whatever made
+      \* the connection's tasks give up: no stream is delivered any more)
+      [] ev.e = "t_close" ->
+            IF /\ ~o.gone /\ ~o.reset /\ ~o.tfail /\ ~o.shut /\ ~o.cerr /\ ~o.illegal /\ o.goaway = 0 /\ ~o.winddown /\ ~o.paused
+               /\ \E a \in DOMAIN o.apps :
+                     /\ Req(o, a).known /\ Req(o, a).ver = "2" /\ ~Req(o, a).rst /\ App(o, a).rstart
+                     /\ App(o, a).sendExc = 0 /\ ~App(o, a).discEarly /\ App(o, a).disc = 0
+                     /\ Wire(o, a).rst = 0 /\ Wire(o, a).ends = 0
+                     /\ App(o, a).done \in {"", "return"}
+            THEN <<F("end-missing", IF o.unusual # {} THEN "connection-closed-under-streams/" \o (CHOOSE u \in o.unusual : TRUE)
+                                    ELSE "connection-closed-under-streams")>> ELSE <<>>
       [] ev.e = "quiescent" ->
             LET Live(a) == /\ Req(o, a).known /\ Req(o, a).ver = "2" /\ ~Req(o, a).rst /\ App(o, a).rstart
                            /\ App(o, a).sendExc = 0 /\ ~App(o, a).discEarly /\ Wire(o, a).rst = 0
